@@ -77,6 +77,22 @@ def run(tier, argv):
         elif m["what"] == "panic":
             bad.append({"part": "schema-parse-position", "what": "panic", "content": m["bytes"], "pos": m["want_pos"], "want": m["want"], "got": json.dumps(m["got"])[:160], "trailing": False})
     rep.notes["schema_language_differences"] = [{"text": bytes(m["bytes"]).decode("latin-1"), "spec": m["want"], "scanner_ok": m["got"]["ok"]} for m in list(vlib.read_ndjson(notes))[:12]]
+    # (i'') parse errors of the enum-rule notation: reference automaton of EnumText through Enum.Check
+    gpe, ge = jsongraph.export_enum_graph(work, rep, "a")
+    oute = work.path("epos.ndjson")
+    p = vlib.run_harness(hbin, ["c05graph", "-graph", gpe, "-out", oute, "-positions", "-sut", "enum"], timeout=3000)
+    if p.returncode != 0:
+        raise vlib.Infra("c05graph (enum) failed: " + p.stderr.decode()[-2000:])
+    for l in p.stderr.decode().split("\n"):
+        if l.startswith("@@SUMMARY "):
+            sm = json.loads(l[10:])
+            if sm["located"] == 0:
+                raise vlib.Infra("vacuous: no enum parse error was located")
+            tests += sm["located"]
+            rep.notes["enum_positions"] = {k: sm[k] for k in ("states", "transitions", "tests", "located", "unspecified", "lenient", "strict", "mismatches")}
+    for m in vlib.read_ndjson(oute):
+        if m["what"] in ("position", "panic"):
+            bad.append({"part": "enum-parse-position", "what": m["what"], "content": m["bytes"], "pos": m["want_pos"], "want": str(m["want_pos"]), "got": json.dumps(m["got"])[:160], "trailing": False})
     # (ii) validation errors: position = start of the offending value / key / enclosing object (first violation in document order)
     docs, pcases, nd, nc = semcommon.generate(work, rep, "GenErrPos", "GenErrPosQuick.cfg" if quick else "GenErrPos.cfg", {"Level": "1"}, "pos")
     pm = work.path("posmism.ndjson")
